@@ -408,3 +408,103 @@ class TcpWrite:
 
     raises = {}
     ensures = {"one-sendall-under-lock": lambda old, self, data, result: calls_are(["lock"], ["sendall", data], ["unlock"])}
+
+
+# ------------------------------------------------------------------------------------------- ota.load_fw
+def env_decoded():
+    return None
+
+
+@contract("mysensors.ota:load_fw", props=["C09", "C10"])
+class LoadFw:
+    """`load_fw` around the Intel-HEX library (what the library decodes is T-ihex): the file named by the caller is
+    opened once for reading, handed to one fresh `IntelHex` object as format "hex", and the result is that object's
+    whole binary image, untouched - or `None` when the file is missing, unreadable or does not decode."""
+
+    configs = [
+        {"exists": e, "readable": r, "decode": d}
+        for e, r, d in (
+            (False, True, "ok"),
+            (True, False, "ok"),
+            (True, True, "ok"),
+            (True, True, "IntelHexError"),
+            (True, True, "TypeError"),
+            (True, True, "ValueError"),
+        )
+    ]
+
+    def setup(h):
+        import os
+
+        import intelhex
+
+        log = _logger(h)
+        c = h.config
+        image = Opaque("decoded-image")
+        h.it.env["decoded"] = image
+        handle = Modelled("handle")
+        handle.attrs["__enter__"] = ModelFn("handle.__enter__", lambda it, a, k: handle)
+        handle.attrs["__exit__"] = ModelFn("handle.__exit__", lambda it, a, k: (log.append(("close",)), False)[1])
+        h.it.env["handle"] = handle
+        h.it.env.update(exists=c["exists"], readable=c["readable"], decode_ok=c["decode"] == "ok")
+
+        def m_open(it, a, k):
+            mode = a[1] if len(a) > 1 else k.get("mode", "r")
+            log.append(("open", a[0], mode))
+            return handle
+
+        def m_fromfile(it, a, k):
+            fmt = a[1] if len(a) > 1 else k.get("format")
+            log.append(("fromfile", a[0], fmt))
+            if c["decode"] != "ok":
+                cls = {"IntelHexError": intelhex.HexRecordError, "TypeError": TypeError, "ValueError": UnicodeDecodeError}[c["decode"]]
+                args = ("utf-8", b"\xff", 0, 1, "invalid start byte") if cls is UnicodeDecodeError else ("bad record",)
+                raise PyRaise(ExcVal(cls, args, site="intelhex:fromfile"))
+            return None
+
+        def m_intelhex(it, a, k):
+            log.append(("IntelHex",) + tuple(a))
+            ih = Modelled("intel_hex")
+            ih.attrs["fromfile"] = ModelFn("IntelHex.fromfile", m_fromfile)
+            ih.attrs["loadhex"] = ModelFn("IntelHex.loadhex", lambda it2, a2, k2: m_fromfile(it2, list(a2) + ["hex"], {}))
+            ih.attrs["tobinstr"] = ModelFn("IntelHex.tobinstr", lambda it2, a2, k2: (log.append(("tobinstr",) + tuple(a2) + tuple(sorted(k2))), image)[1])
+            return ih
+
+        h.it.models[id(os.path.realpath)] = ModelFn("os.path.realpath", lambda it, a, k: a[0])
+        h.it.models[id(os.path.isfile)] = ModelFn("os.path.isfile", lambda it, a, k: c["exists"])
+        h.it.models[id(os.access)] = ModelFn("os.access", lambda it, a, k: c["readable"])
+        h.it.models[id(open)] = ModelFn("open", m_open)
+        h.it.models[id(OTA.IntelHex)] = ModelFn("IntelHex", m_intelhex)
+        return ["firmware.hex"], {}
+
+    raises = {}
+
+    def _ok(old, path, result):
+        if not (env_exists() and env_readable()):
+            return result is None and calls_are()
+        if env_decode_ok():
+            return result is env_decoded() and calls_are(
+                ["IntelHex"], ["open", path, "r"], ["fromfile", env_handle(), "hex"], ["close"], ["tobinstr"]
+            )
+        return result is None
+
+    ensures = {"whole-decoded-image-or-none": _ok}
+
+
+def env_exists():
+    return True
+
+
+def env_readable():
+    return True
+
+
+def env_decode_ok():
+    return True
+
+
+def env_handle():
+    return None
+
+
+_install_env(LoadFw, [(env_decoded, "decoded"), (env_handle, "handle"), (env_exists, "exists"), (env_readable, "readable"), (env_decode_ok, "decode_ok")])
